@@ -156,11 +156,52 @@ func slowStoreRead(sum *hx.Summary) {
 	}
 }
 
+// slowWriteStore: Set takes 300 ms
+type slowWriteStore struct{ fakeStore }
+
+func (b *slowWriteStore) Set(key []byte, data []byte, ttl time.Duration) error {
+	time.Sleep(300 * time.Millisecond)
+	return b.fakeStore.Set(key, data, ttl)
+}
+
+// purgeAfterSlowWrite: a fetch completes (cacheable) on a store whose write takes 300 ms, THEN the key is purged;
+// half a second later the store holds nothing for the key and the next request fetches again
+func purgeAfterSlowWrite(sum *hx.Summary) {
+	const name = "slowwrite"
+	url := "fake://" + name
+	ss := &slowWriteStore{fakeStore: fakeStore{data: map[string][]byte{}}}
+	store.VerifRegister(url, ss)
+	defer store.VerifUnregister(url)
+	cache.ResetDispatchers([]config.CacheConfig{{Name: name, Size: 64, HitForPass: "300s", Store: url}})
+	defer cache.ResetDispatchers(nil)
+	d := cache.GetDispatcher(name)
+	key := []byte("GET slow.example /purged-after-write")
+	hc := d.GetHTTPCache(key)
+	if st, _ := hc.Get(); st != cache.StatusFetching {
+		return
+	}
+	hc.Cacheable(mkResp(7791), 60) // the request is answered when this returns
+	d.RemoveHTTPCache(key)         // the purge completes
+	time.Sleep(600 * time.Millisecond)
+	ss.mu.Lock()
+	_, still := ss.data[string(key)]
+	ss.mu.Unlock()
+	st, _ := d.GetHTTPCache(key).Get()
+	sum.Count("purge-after-slow-write-scenario")
+	if still || st != cache.StatusFetching {
+		sum.ImplViolations = append(sum.ImplViolations, map[string]interface{}{"property": "C18+C10", "kind": "purged-entry-back-after-a-slow-store-write",
+			"what": "fetch completed (cacheable) on a store whose write takes 300 ms, then the key was purged; 600 ms later", "record_in_store": still, "next_request": st.String(), "key": string(key)})
+	}
+}
+
 // overlappingStoreReads: the store still holds a well-formed but expired record for a cold key and is slow to
 // answer; four requests for that key arrive while the first read is in progress.  Exactly one of them becomes
 // the fetcher, the others wait for it and are answered from its (cacheable) result.
-func overlappingStoreReads(sum *hx.Summary) {
-	const name = "overlapread"
+func overlappingStoreReads(sum *hx.Summary, lapsedMarker bool) {
+	name := "overlapread"
+	if lapsedMarker {
+		name = "overlapmarker"
+	}
 	url := "fake://" + name
 	ss := &slowReadStore{fakeStore: fakeStore{data: map[string][]byte{}}, gate: make(chan struct{}), entered: make(chan struct{}, 16)}
 	store.VerifRegister(url, ss)
@@ -171,6 +212,9 @@ func overlappingStoreReads(sum *hx.Summary) {
 	key := []byte("GET slow.example /stale-record")
 	now := time.Now().Unix()
 	rec, _ := cache.VerifNewEntry(3, mkResp(7790), now-100, now-50).Bytes()
+	if lapsedMarker { // a hit-for-pass marker whose period ended 50 s ago: the key is to be probed again, by ONE request
+		rec, _ = cache.VerifNewEntry(2, nil, 0, now-50).Bytes()
+	}
 	ss.data[string(key)] = rec
 	ss.slowKey = string(key)
 	const n = 4
@@ -227,8 +271,8 @@ collect:
 		}
 	}
 	if bad {
-		sum.ImplViolations = append(sum.ImplViolations, map[string]interface{}{"property": "C01", "kind": "several-fetchers-for-a-cold-key-with-a-stale-store-record",
-			"what": "four requests arrived for one cold key while the (slow) store read of its expired record was in progress: expected one fetching request and three waiting for it and answered hit",
+		sum.ImplViolations = append(sum.ImplViolations, map[string]interface{}{"property": "C01+C07+C10", "kind": "several-fetchers-for-a-cold-key-with-a-stale-store-record", "lapsed_hit_for_pass_marker": lapsedMarker,
+			"what": "four requests arrived for one cold key while the (slow) store read of its expired record (a hit, or a lapsed hit-for-pass marker) was in progress: expected one fetching request and three waiting for it and answered hit",
 			"key":  string(key), "returned_before_the_fetch_completed": early, "returned_after": late})
 	}
 }
@@ -486,7 +530,9 @@ func TestChoreo(t *testing.T) {
 	_ = os.Remove(out + "/inflight.json")
 	runtime.GOMAXPROCS(4) // the last scenario needs real blocking, not a forced schedule
 	slowStoreRead(sum)
-	overlappingStoreReads(sum)
+	overlappingStoreReads(sum, false)
+	overlappingStoreReads(sum, true)
+	purgeAfterSlowWrite(sum)
 	w.Flush()
 	sum.DistinctNontrivial = distinct.Len()
 	sum.Write(out)
